@@ -15,7 +15,9 @@
 (***************************************************************************)
 EXTENDS Integers, Sequences, FiniteSets, TLC, Json
 
-CONSTANTS StateReadLocks,      \* {"stateMu"} when state reads go through a locked getter, {} for plain reads
+CONSTANTS StateReadLocks,      \* {"stateMu/r"} when state reads go through a getter that takes the read lock, {} for plain reads
+          StateWriteLocks,     \* {"stateMu"} when every assignment to the state holds the lock exclusively, {"stateMu/r"} when one
+                               \* holds only the read lock, {} when one holds nothing
           SettingsWriteLocks,  \* {"Session.mu"} when the Logon handler swaps the settings under the send lock
           CounterReadAtomic    \* TRUE when the counter is read with an atomic load
 
@@ -28,10 +30,12 @@ A(proc, site, loc, kind, locks, atomic, scn) ==
 
 Accesses == {
   \* ---- Session.state ----
-  A("dispatch", "changeState (Logon/Logout handlers, WTR->SL)", "Session.state", "w", {"stateMu"}, FALSE, "timers_vs_inbound"),
-  A("timerIn",  "changeState (WaitingTestReqAnswer, Disconnect)", "Session.state", "w", {"stateMu"}, FALSE, "timers_vs_inbound"),
-  A("app",      "changeState (Logout, Stop)", "Session.state", "w", {"stateMu"}, FALSE, "logout_stop_vs_all"),
-  A("app",      "IsLogged", "Session.state", "r", {"stateMu"}, FALSE, "senders_vs_timers"),
+  A("dispatch", "changeState (Logon/Logout handlers, WTR->SL)", "Session.state", "w", StateWriteLocks, FALSE, "timers_vs_inbound"),
+  A("dispatch", "WTR->SL when the TestRequest is answered by any inbound message", "Session.state", "w", StateWriteLocks, FALSE, "testrequest_answer_vs_queries"),
+  A("timerIn",  "changeState (WaitingTestReqAnswer, Disconnect)", "Session.state", "w", StateWriteLocks, FALSE, "timers_vs_inbound"),
+  A("app",      "changeState (Logout, Stop)", "Session.state", "w", StateWriteLocks, FALSE, "logout_stop_vs_all"),
+  A("app",      "IsLogged", "Session.state", "r", {"stateMu/r"}, FALSE, "senders_vs_timers"),
+  A("app",      "IsLogged while a TestRequest is outstanding / being answered", "Session.state", "r", {"stateMu/r"}, FALSE, "testrequest_answer_vs_queries"),
   A("dispatch", "state reads in the inbound handlers", "Session.state", "r", StateReadLocks, FALSE, "timers_vs_inbound"),
   A("timerIn",  "state read in the inbound timer loop", "Session.state", "r", StateReadLocks, FALSE, "timers_vs_inbound"),
   \* ---- timers started by the last logon ----
@@ -72,7 +76,13 @@ Accesses == {
 
 Concurrent(a, b) == a.proc # b.proc \/ a.proc \in Multi
 Conflict(a, b) == a.loc = b.loc /\ (a.kind = "w" \/ b.kind = "w") /\ Concurrent(a, b)
-Protected(a, b) == (a.locks \cap b.locks # {}) \/ (a.atomic /\ b.atomic)
+\* "L/r" is lock L held in shared (read) mode: it excludes holders of L, not other holders of L/r
+IsShared(l) == Len(l) > 2 /\ SubSeq(l, Len(l) - 1, Len(l)) = "/r"
+SharedOf(l) == l \o "/r"
+Protected(a, b) ==
+  \/ \E l \in a.locks : ~IsShared(l) /\ (l \in b.locks \/ SharedOf(l) \in b.locks)
+  \/ \E l \in b.locks : ~IsShared(l) /\ (l \in a.locks \/ SharedOf(l) \in a.locks)
+  \/ (a.atomic /\ b.atomic)
 
 ConflictingPairs == {p \in Accesses \X Accesses : Conflict(p[1], p[2])}
 Unprotected == {p \in ConflictingPairs : ~Protected(p[1], p[2])}
